@@ -1,6 +1,6 @@
 (* C14 — property theorems only. *)
 From Coq Require Import List Bool ZArith.
-From V Require Import C01.Model C06.Model C06.Proofs C14.Model C14.Proofs.
+From V Require Import C01.Model C06.Model C06.Proofs C14.Model C14.Proofs C14.Groups.
 Import ListNotations.
 Open Scope Z_scope.
 
@@ -40,6 +40,22 @@ Theorem offered_placements_exact : forall M G f,
   In f (placements_of M G) <-> (is_iso (mod_graph M) G f = true /\ map fst f = keys (mod_graph M)).
 Proof. intros M G f. apply all_isos_spec. Qed.
 Print Assumptions offered_placements_exact.
+
+(* Groups of unexplained atoms (find_ptm_atoms): from one unexplained atom the flood returns only atoms chained to it
+   through unexplained atoms, and as anchors only recognised atoms bonded to one of them ... *)
+Theorem group_is_sound : forall es flagged fuel x, In x flagged ->
+  let r := flood fuel es flagged [x] [] [] in
+  (forall s, In s (fst r) -> chain es flagged x s) /\
+  (forall a, In a (snd r) -> ~ In a flagged /\ exists s, In s (fst r) /\ In a (nbrs_of es s)).
+Proof. exact flood_sound. Qed.
+Print Assumptions group_is_sound.
+
+(* ... and with the fuel of the model it returns all of them: every neighbour of a group atom is in the group or an anchor *)
+Theorem group_is_complete : forall es flagged, NoDup flagged -> forall x, In x flagged ->
+  let r := flood (S (2 * List.length es + List.length flagged)) es flagged [x] [] [] in
+  forall s n, In s (fst r) -> In n (nbrs_of es s) -> In n (fst r) \/ In n (snd r).
+Proof. exact flood_complete. Qed.
+Print Assumptions group_is_complete.
 
 (* non-vacuity: CA with a P-O group; modifications CA-P and CA-P-O: the larger one is chosen *)
 Definition ex_atoms := [{| t_key := 0; t_name := 2; t_el := 6; t_resid := 1; t_ptm := false |};
